@@ -54,6 +54,8 @@ int main(void)
 		f = fopen(plan, "r");
 		if (f) { for (int i = 0; i <= k; i++) if (!fgets(planline, sizeof(planline), f)) { planline[0] = 0; break; } fclose(f); }
 	}
+	/* ns / nh: gone at once, before anything is read (what queue_init() makes of it is forced in harness/session/wraps.c) */
+	if (!strncmp(planline, "ns", 2) || !strncmp(planline, "nh", 2)) _exit(0);
 	if (!strncmp(planline, "exit:", 5)) exitcode = atoi(planline + 5);
 	if (!strncmp(planline, "die:", 4)) { phase = planline[4]; sscanf(planline + 5, ":%ld:%15s", &n, how); }
 	/* ce:<how>: close the envelope descriptor at once (the server's envelope write then fails with EPIPE for sure),
